@@ -202,10 +202,10 @@ CLAIMED = {
              'smaller capacity, C10_order_is_capacity). C10_greedy_optimal / C10_ascii_only_minimal: for the ASCII-only configuration the full statement IS a theorem -- greedy digit pairing is the shortest among all legal ASCII encodings, so the symbol is the smallest one any legal stream of the enabled mode fits. In general the full statement -- minimal over ALL legal encodings -- is false of the faithful model: '
              'C10_exact_fit_refuted exhibits, by kernel evaluation of the encoder and decoder models, an 11-byte input for which a 10-codeword '
              'stream accepted by the crate\'s own decoder exists, an 8x32 symbol is listed, and the encoder returns a 12-codeword symbol. This is the '
-             'recorded finding C10-exact-fit (known_findings.json; not a small patch). Outside that class optimality is decided per case against '
+             'recorded finding C10-exact-fit (known_findings.json; not a small patch). Two further root causes are recorded with kernel-evaluated or replayed witnesses: C10-base256-run-length (pruning keeps one Base256 candidate per start mode although the future cost depends on the field length; oracle: exact two-mode bound refenc.ab_bound) and C10-unbeatable-strike (the C40/Text plan considers no switch while it reads an "unbeatable" strike of base-set characters; C10_strike_refuted, C10_strike_refusal_refuted; the class is decided by re-decoding witness and encoder stream and simulating the strike along the encoder\'s run), each with its refusal face. Outside these classes optimality is decided per case against '
              'an exact search over all legal streams (tools/props/refenc.best_stream: every segmentation into mode runs with every end-of-data '
              'form, memoised), against plain ASCII / plain Base256 lengths, and refusals against the largest symbol; any miss outside the '
-             'recorded class is a VIOLATION. Two C10 defects of the pinned tree were repaired (fix: commits).',
+             'recorded classes is a VIOLATION. Two C10 defects of the pinned tree were repaired (fix: commits).',
         design_ref='DESIGN.md 6/C10',
         note='Trusted: Coq kernel + vm_compute, extraction, harness, sort-trace hook; refenc.py/refdec.py as independent reading of ISO/IEC 16022 5.2. No axioms.',
         technique='Coq proof of first-fit minimality for the produced stream + kernel-evaluated counterexample for the full statement (known finding); exact-search oracle per case'),
